@@ -1,82 +1,180 @@
 /-
-Model of src/Bpp/Numeric/Range.h (Range<T>, RangeSet<T>, MultiRange<T>) with
-integer coordinates.  Transcription of the code that exists: in particular
-`sliceWith` resets a non-overlapping range to [0,0[ and `lt` is the source's
-`operator<` (begin < r.begin || end < r.end), which is not an order in general.
+Model of src/Bpp/Numeric/Range.h (Range<T>, RangeCollection<T>, RangeSet<T>, MultiRange<T>),
+generic in the coordinate type.  What the code uses of `T` is a decidable order (`<`, `<=`,
+`==`), `std::min` / `std::max` (constructor), the literal `0` (default arguments and the reset
+of `sliceWith`), `+` / `-` (shifts and `length()`), the conversion of a length into the `size_t`
+accumulator of `totalLength()` and `operator<<` (`toString`).  The first group is taken from the
+ordinary Lean classes, so that the model instantiates at
+
+  * `Int`     for `int`      (no overflow inside the property's universe: theorems
+                              `endpoints_closed` / `int_no_overflow` in `Props/C20Inst.lean`),
+  * `UInt32`  for `unsigned` (arithmetic modulo 2^32, as the C++ standard prescribes: every
+                              subtraction of the header wraps exactly like `UInt32.sub`),
+  * `Rat`     for `double`   (exact on the dyadic values that are generated; rounding is not
+                              modelled).
+
+Transcription of the code that exists: in particular `sliceWith` resets a non-overlapping range
+to [0,0[ and `lt` is the source's `operator<` (begin < r.begin || end < r.end), which is not an
+order in general.
 -/
 namespace Bpp
 
-structure Range where
-  b : Int
-  e : Int
+/-- `Range<T>`: the two private members `begin_`, `end_` (Range.h:30-31). -/
+structure Range (α : Type) where
+  b : α
+  e : α
 deriving DecidableEq, Repr, Inhabited
 
+/-- the two type-specific conversions of the header -/
+class CoordIO (α : Type) where
+  /-- `tot += it->length()` on a `size_t tot` (Range.h:360, 525): the usual arithmetic
+  conversions of the compound assignment, for each coordinate type -/
+  accLen : Nat → α → Nat
+  /-- `TextTools::toString(T)` = `std::ostringstream << t` (TextTools.h:115) -/
+  render : α → String
+
 namespace Range
+section
+variable {α : Type}
 
-/-- `Range(a,b)`: normalising constructor (Range.h:46). -/
-def make (a b : Int) : Range := ⟨min a b, max a b⟩
+/-- `Range(a,b)`: normalising constructor (Range.h:46-49). -/
+def make [Min α] [Max α] (a b : α) : Range α := ⟨min a b, max a b⟩
 
+/-- `Range()`: both default arguments are `0` (Range.h:46). -/
+def default [Min α] [Max α] [OfNat α 0] : Range α := make 0 0
+
+/-- `Range(a)`: second default argument `0` (Range.h:46). -/
+def make1 [Min α] [Max α] [OfNat α 0] (a : α) : Range α := make a 0
+
+/-- copy constructor / `operator=` / `clone()` (Range.h:51-60): member-wise copy. -/
+def clone (x : Range α) : Range α := ⟨x.b, x.e⟩
+
+/-- `operator==` (Range.h:65). -/
+def eq [DecidableEq α] (x r : Range α) : Bool := decide (x.b = r.b) && decide (x.e = r.e)
+/-- `operator!=` (Range.h:69). -/
+def ne [DecidableEq α] (x r : Range α) : Bool := decide (x.b ≠ r.b) || decide (x.e ≠ r.e)
 /-- `operator<` (Range.h:73). -/
-def lt (x r : Range) : Bool := decide (x.b < r.b) || decide (x.e < r.e)
+def lt [LT α] [DecidableLT α] (x r : Range α) : Bool := decide (x.b < r.b) || decide (x.e < r.e)
 
-def shift (x : Range) (v : Int) : Range := ⟨x.b + v, x.e + v⟩
-def unshift (x : Range) (v : Int) : Range := ⟨x.b - v, x.e - v⟩
-def length (x : Range) : Int := x.e - x.b
+/-- `operator+=`, `operator+` (Range.h:77-86). -/
+def shift [Add α] (x : Range α) (v : α) : Range α := ⟨x.b + v, x.e + v⟩
+/-- `operator-=`, `operator-` (Range.h:87-96). -/
+def unshift [Sub α] (x : Range α) (v : α) : Range α := ⟨x.b - v, x.e - v⟩
+/-- `length()` (Range.h:102). -/
+def length [Sub α] (x : Range α) : α := x.e - x.b
 
-def overlap (x r : Range) : Bool := decide (r.b < x.e) && decide (r.e > x.b)
-def isContiguous (x r : Range) : Bool := decide (r.b = x.e) || decide (r.e = x.b)
-def contains (x r : Range) : Bool := decide (r.b ≥ x.b) && decide (r.e ≤ x.e)
-def isEmpty (x : Range) : Bool := decide (x.b = x.e)
+/-- `overlap` (Range.h:110): `r.begin_ < end_ && r.end_ > begin_`. -/
+def overlap [LT α] [DecidableLT α] (x r : Range α) : Bool := decide (r.b < x.e) && decide (x.b < r.e)
+/-- `isContiguous` (Range.h:120). -/
+def isContiguous [DecidableEq α] (x r : Range α) : Bool := decide (r.b = x.e) || decide (r.e = x.b)
+/-- `contains` (Range.h:129): `r.begin_ >= begin_ && r.end_ <= end_`. -/
+def contains [LE α] [DecidableLE α] (x r : Range α) : Bool := decide (x.b ≤ r.b) && decide (r.e ≤ x.e)
+/-- `isEmpty` (Range.h:171). -/
+def isEmpty [DecidableEq α] (x : Range α) : Bool := decide (x.b = x.e)
 
-/-- `expandWith` (Range.h:140). -/
-def expandWith (x r : Range) : Range :=
-  let b := if r.b < x.b ∧ r.e ≥ x.b then r.b else x.b
-  let e := if r.e > x.e ∧ r.b ≤ x.e then r.e else x.e
+/-- `expandWith` (Range.h:140-143); the second test reads `end_`, which the first assignment
+does not touch. -/
+def expandWith [LT α] [LE α] [DecidableLT α] [DecidableLE α] (x r : Range α) : Range α :=
+  let b := if r.b < x.b ∧ x.b ≤ r.e then r.b else x.b
+  let e := if x.e < r.e ∧ r.b ≤ x.e then r.e else x.e
   ⟨b, e⟩
 
-/-- `sliceWith` (Range.h:154); the second test reads the already updated begin. -/
-def sliceWith (x r : Range) : Range :=
+/-- `sliceWith` (Range.h:154-165); the second test reads the already updated begin. -/
+def sliceWith [LT α] [LE α] [DecidableLT α] [DecidableLE α] [OfNat α 0] (x r : Range α) : Range α :=
   if x.overlap r then
-    let b := if r.b > x.b ∧ r.b ≤ x.e then r.b else x.b
-    let e := if r.e < x.e ∧ r.e ≥ b then r.e else x.e
+    let b := if x.b < r.b ∧ r.b ≤ x.e then r.b else x.b
+    let e := if r.e < x.e ∧ b ≤ r.e then r.e else x.e
     ⟨b, e⟩
   else ⟨0, 0⟩
 
+/-- `toString` (Range.h:178). -/
+def toString [CoordIO α] (x : Range α) : String :=
+  "[" ++ CoordIO.render x.b ++ "," ++ CoordIO.render x.e ++ "["
+
+end
 end Range
 
-/-! ### RangeSet -/
+/-! ### RangeCollection: what both collections implement the same way
+(`toString`, `isEmpty`, `size`, `totalLength`, `getRange`, `clear`, copy / assignment) -/
+namespace RangeCollection
+section
+variable {α : Type}
+
+/-- `toString` (Range.h:337-346, 488-497). -/
+def toString [CoordIO α] (s : List (Range α)) : String :=
+  "{ " ++ String.join (s.map (fun x => x.toString ++ " ")) ++ "}"
+
+/-- `isEmpty` (Range.h:348, 516). -/
+def isEmpty (s : List (Range α)) : Bool := s.length == 0
+/-- `size` (Range.h:350, 518). -/
+def size (s : List (Range α)) : Nat := s.length
+
+/-- `totalLength` (Range.h:355-363, 520-528): a `size_t` accumulator. -/
+def totalLength [Sub α] [CoordIO α] (s : List (Range α)) : Nat :=
+  s.foldl (fun tot x => CoordIO.accLen tot x.length) 0
+
+/-- `getRange(i)` (Range.h:365, 530): `*ranges_[i]`; out of range is undefined behaviour of
+`std::vector::operator[]`, modelled as `none` (never a made-up range). -/
+def getRange? (s : List (Range α)) (i : Nat) : Option (Range α) := s[i]?
+
+/-- `clear` (Range.h:374, 532). -/
+def clear (_ : List (Range α)) : List (Range α) := []
+
+/-- copy constructor (Range.h:271-277, 402-408): a clone of every element, in order. -/
+def copy (src : List (Range α)) : List (Range α) := src.map Range.clone
+/-- `operator=` (Range.h:279-289, 410-420): self-assignment (`this == &set`) leaves the object
+alone — the guard was added by the round-2 repair, the unguarded code emptied the object —
+otherwise the target is emptied and receives a clone of every element, in order. -/
+def assign (self : Bool) (tgt src : List (Range α)) : List (Range α) :=
+  if self then tgt else clear tgt ++ src.map Range.clone
+
+end
+end RangeCollection
+
+/-! ### RangeSet (a `std::vector` of owned ranges, insertion order; no comparator is used) -/
 namespace RangeSet
-def addRange (s : List Range) (r : Range) : List Range :=
-  if r.isEmpty then s else s ++ [r]
-def restrictTo (s : List Range) (r : Range) : List Range :=
+section
+variable {α : Type} [LE α] [LT α] [DecidableLE α] [DecidableLT α] [DecidableEq α] [OfNat α 0]
+/-- `addRange` (Range.h:296-300). -/
+def addRange (s : List (Range α)) (r : Range α) : List (Range α) :=
+  if r.isEmpty then s else s ++ [r.clone]
+/-- `restrictTo` (Range.h:302-318). -/
+def restrictTo (s : List (Range α)) (r : Range α) : List (Range α) :=
   (s.map (·.sliceWith r)).filter (fun x => !x.isEmpty)
-def filterWithin (s : List Range) (r : Range) : List Range :=
+/-- `filterWithin` (Range.h:320-335). -/
+def filterWithin (s : List (Range α)) (r : Range α) : List (Range α) :=
   s.filter (fun x => r.contains x)
-def totalLength (s : List Range) : Int := (s.map Range.length).sum
+end
+def totalLength {α : Type} [Sub α] [CoordIO α] (s : List (Range α)) : Nat :=
+  RangeCollection.totalLength s
 end RangeSet
 
 /-! ### MultiRange -/
 namespace MultiRange
+section
+variable {α : Type}
 
 /-- insertion of `x` into a list sorted for the source comparator. -/
-def insertBy (lt : Range → Range → Bool) (x : Range) : List Range → List Range
+def insertBy (lt : Range α → Range α → Bool) (x : Range α) : List (Range α) → List (Range α)
   | [] => [x]
   | y :: ys => if lt x y then x :: y :: ys else y :: insertBy lt x ys
 
-/-- Stand-in for `std::sort(ranges_.begin(), ranges_.end(), rangeComp_)`:
+/-- Stand-in for `std::sort(ranges_.begin(), ranges_.end(), rangeComp_)` (Range.h:542):
 insertion sort with the source comparator. -/
-def sortBy (lt : Range → Range → Bool) : List Range → List Range
+def sortBy (lt : Range α → Range α → Bool) : List (Range α) → List (Range α)
   | [] => []
   | x :: xs => insertBy lt x (sortBy lt xs)
 
-/-- `clean_` (Range.h:530): sort, then drop the empty ranges. -/
-def clean (m : List Range) : List Range :=
+variable [LE α] [LT α] [DecidableLE α] [DecidableLT α] [DecidableEq α] [OfNat α 0]
+
+/-- `clean_` (Range.h:538-557): sort, then drop the empty ranges. -/
+def clean (m : List (Range α)) : List (Range α) :=
   (sortBy Range.lt m).filter (fun x => !x.isEmpty)
 
 /-- The merge loop of `addRange`: the first overlapping range is expanded with
 `r`, then with the other overlapping ranges from the last to the second, which
-are erased. `acc` is `none` until the first overlapping range has been met. -/
-def mergeInto (r : Range) : List Range → Option (Range × List Range)
+are erased. The result is `none` when no stored range overlaps. -/
+def mergeInto (r : Range α) : List (Range α) → Option (Range α × List (Range α))
   | [] => none
   | x :: xs =>
     if x.overlap r then
@@ -90,23 +188,64 @@ def mergeInto (r : Range) : List Range → Option (Range × List Range)
       | none => none
       | some (mg, l) => some (mg, x :: l)
 
-/-- `addRange` (Range.h:405). -/
-def addRange (m : List Range) (r : Range) : List Range :=
+/-- `addRange` (Range.h:427-457). -/
+def addRange (m : List (Range α)) (r : Range α) : List (Range α) :=
   match mergeInto r m with
-  | none => clean (m ++ [r])
+  | none => clean (m ++ [r.clone])
   | some (_, l) => clean l
 
-/-- `restrictTo` (Range.h:436). -/
-def restrictTo (m : List Range) (r : Range) : List Range :=
+/-- `restrictTo` (Range.h:459-466). -/
+def restrictTo (m : List (Range α)) (r : Range α) : List (Range α) :=
   clean (m.map (·.sliceWith r))
 
-/-- `filterWithin` (Range.h:445). -/
-def filterWithin (m : List Range) (r : Range) : List Range :=
+/-- `filterWithin` (Range.h:468-483). -/
+def filterWithin (m : List (Range α)) (r : Range α) : List (Range α) :=
   m.filter (fun x => r.contains x)
 
-def totalLength (m : List Range) : Int := (m.map Range.length).sum
+end
 
-def getBounds (m : List Range) : List Int := m.flatMap (fun x => [x.b, x.e])
+def totalLength {α : Type} [Sub α] [CoordIO α] (m : List (Range α)) : Nat :=
+  RangeCollection.totalLength m
+
+/-- `getBounds` (Range.h:502-511). -/
+def getBounds {α : Type} (m : List (Range α)) : List α := m.flatMap (fun x => [x.b, x.e])
 
 end MultiRange
+
+/-! ### the three instantiations -/
+
+/-- `int`: `tot += len` converts `len` to `size_t` (modulo 2^64) and adds modulo 2^64;
+`operator<<` prints the decimal numeral. -/
+instance : CoordIO Int where
+  accLen tot len := (((tot : Int) + len) % (2 ^ 64 : Int)).toNat
+  render := toString
+
+/-- `unsigned`: zero-extension, addition modulo 2^64. -/
+instance : CoordIO UInt32 where
+  accLen tot len := (tot + len.toNat) % 2 ^ 64
+  render x := toString x.toNat
+
+/-- decimal expansion of a non-negative rational with at most `fuel` fractional digits, trailing
+zeros dropped: what `operator<<(double)` prints at the default precision 6 for the dyadic values
+of at most 6 significant digits that are generated. -/
+def renderFrac (fuel : Nat) (num den : Nat) : String :=
+  match fuel with
+  | 0 => ""
+  | fuel + 1 =>
+    if num == 0 then "" else
+      let d := num * 10 / den
+      toString d ++ renderFrac fuel (num * 10 % den) den
+
+/-- `double`: `tot += len` is `tot = (size_t)((double)tot + len)`, which truncates after every
+addition; a negative or huge sum is undefined behaviour (not reachable: lengths of stored ranges
+are positive — `Props/C20.lean`), rendered by `Int.toNat`. -/
+instance : CoordIO Rat where
+  accLen tot len := (((tot : Rat) + len).floor).toNat
+  render x :=
+    let neg := decide (x < 0)
+    let a := if neg then -x else x
+    let ip := a.floor.toNat
+    let fr := renderFrac 6 (a.num.toNat - ip * a.den) a.den
+    (if neg then "-" else "") ++ toString ip ++ (if fr == "" then "" else "." ++ fr)
+
 end Bpp
